@@ -44,6 +44,26 @@ Theorem c01_handled_window : forall c s k s' os t o, reach c s -> step s (LRelHa
 Proof. exact SrvC01.c01_handled_window. Qed.
 Print Assumptions c01_handled_window.
 
+Theorem c01_done_body : forall c s k t bo, reach c s -> nth_error (tasks s) k = Some t -> t_st t = TDone bo ->
+  t_pre t = None /\ (bo = Some cancel_err \/ exists o, bo = body_of_outcome t o).
+Proof. exact SrvC01.c01_done_body. Qed.
+Print Assumptions c01_done_body.
+
+Theorem c01_correlated : forall c s tr s' oss k t o, reach c s -> run s tr = Some (s', oss) ->
+  nth_error (tasks s) k = Some t -> t_st t = TAtHandled o ->
+  exists t', nth_error (tasks s') k = Some t' /\
+    (t_st t' = TAtHandled o \/ t_st t' = TDone (body_of_outcome t o)) /\
+    (forall b, t_st t' = TDone (Some b) -> task_body t' = b /\ Some b = body_of_outcome t o).
+Proof. exact SrvC01.c01_correlated. Qed.
+Print Assumptions c01_correlated.
+
+Theorem c01_correlated_running : forall c s tr s' oss k t, reach c s -> run s tr = Some (s', oss) ->
+  nth_error (tasks s) k = Some t -> t_st t = TRunning ->
+  exists t', nth_error (tasks s') k = Some t' /\
+    (t_st t' = TRunning \/ exists o, t_st t' = TAtHandled o \/ t_st t' = TDone (body_of_outcome t o)).
+Proof. exact SrvC01.c01_correlated_running. Qed.
+Print Assumptions c01_correlated_running.
+
 (* 3. a reply is sent by the deliver step of its unit, once, as responses of the unit's tasks with the unit's
       batch flag, when all its tasks have finished; every other message is a reader's null-id error. *)
 Theorem c01_send_origin : forall c s l s' os ok b rs,
